@@ -506,4 +506,38 @@ theorem effectiveFrom_fresh (es : List (Str × β)) (ops : List (Str × Bool × 
       have : ¬ op.1 = o.1 := fun e => hnd.1 (by rw [e]; exact List.mem_map.mpr ⟨o, ho, rfl⟩)
       simp [this]
 
+/-- the value under a name depends only on the calls that name it -/
+theorem lookup_effectiveFrom (es : List (Str × β)) (ops : List (Str × Bool × β)) (n : Str) :
+    lookup (effectiveFrom es ops) n = storedFrom (lookup es n) n ops := by
+  induction ops generalizing es with
+  | nil => rfl
+  | cons op r ih =>
+    obtain ⟨n', sh, x⟩ := op
+    simp only [effectiveFrom, storedFrom]
+    rw [ih]
+    cases hacc : accepts es n' sh with
+    | true =>
+      rw [lookup_effStep es n' sh x hacc n]
+      by_cases h : n' = n
+      · subst h
+        simp only [beq_self_eq_true, ↓reduceIte]
+        cases hl : lookup es n' with
+        | none => rfl
+        | some y =>
+          have : sh = true := by simpa [accepts, hl] using hacc
+          subst this; rfl
+      · have : (n' == n) = false := beq_eq_false_iff_ne.mpr h
+        simp [h, this]
+    | false =>
+      rw [effStep_rejected es n' sh x hacc]
+      by_cases h : n' = n
+      · subst h
+        cases hl : lookup es n' with
+        | none => simp [accepts, hl] at hacc
+        | some y =>
+          have : sh = false := by simpa [accepts, hl] using hacc
+          subst this; simp
+      · have : (n' == n) = false := beq_eq_false_iff_ne.mpr h
+        simp [this]
+
 end Wac
